@@ -39,19 +39,19 @@ const (
 )
 
 type qview struct {
-	hdrOK                  bool
-	id                     uint16
-	flags                  uint16
-	qd, an, ns, ar         uint16
-	decodable              bool
-	msg                    *dns.Msg
-	hasOPT                 bool
-	adv                    int
-	do                     bool
-	ver                    int
-	clientCookie           []byte
+	hdrOK                    bool
+	id                       uint16
+	flags                    uint16
+	qd, an, ns, ar           uint16
+	decodable                bool
+	msg                      *dns.Msg
+	hasOPT                   bool
+	adv                      int
+	do                       bool
+	ver                      int
+	clientCookie             []byte
 	wantsNSID, hasKA, hasECS bool
-	opts                   []aOption
+	opts                     []aOption
 }
 
 func viewQuery(raw []byte) qview {
